@@ -34,7 +34,9 @@ TIMESIGS = ['*M4/4', '*M3/4', '*M6/8', '*M2/2', '*M3+2/8', '*M12/8', '*M5/4']
 STAFFS = ['*staff1', '*staff2', '*staff1/2']
 INSTRS = ['*Ipiano', '*I"Organo', '*Ivioln', '*mI"Solo']
 TANDEMS = ['*tb8', '*solo', '*above', '*below', '*cue', '*Xcue', '*MM120', '*8va', '*X8va', '*>A', '*>[A,B]', '*lh', '*rh', '*ped', '*Xped', '*part1', '*rscale:2']
-LYRICS = ['Ky-', 'ri-', 'e', 'le-', 'i-', 'son', 'A-', 'men', 'señor', 'été', 'lu-', 'jah', 'the cat', 'a, b', '"quoted"', "it's", 'do re mi', 'glo-', 'ria', 'Ω', 'ß', 'x,y', 'and;', '...', '..']
+LYRICS = ['Ky-', 'ri-', 'e', 'le-', 'i-', 'son', 'A-', 'men', 'señor', 'été', 'lu-', 'jah', 'the cat', 'a, b', '"quoted"', "it's", 'do re mi', 'glo-', 'ria', 'Ω', 'ß', 'x,y', 'and;', '...', '..',
+          # white space at the edges of a cell and text that mentions `**e...` (round 6: a `.strip()` in one tokenizer, a header rewrite applied to the whole text)
+          'Ky- ', ' ri-', 'la**e', 'x**espr', 'e**', 'x**etext', 'see **ekern']
 DYNAMICS = ['p', 'f', 'mf', 'pp', 'ff', 'sfz', 'cresc.', 'dim.', '<', '>', 'fp', 'mp']
 HARMONY = ['I', 'V7', 'IV', 'ii6', 'Cmaj7', 'N.C.', 'vi', 'V/V', 'bVII']
 FINGERING = ['1', '2', '3', '5', '1 2', '3 5', '4']
@@ -187,7 +189,7 @@ class CellGen:
 
     def comment_cell(self):
         r = self.rng
-        return {'k': 'other', 'kind': 'fieldComment', 'text': r.choice(['!', '!', '!note', '!LO:TX:a', '!see, "this"', '!héllo'])}
+        return {'k': 'other', 'kind': 'fieldComment', 'text': r.choice(['!', '!', '!note', '!LO:TX:a', '!see, "this"', '!héllo', '! sotto voce ', '!**espressivo**', '!cf. the **ekern edition'])}
 
 
 def token_stream(rng, n, canonical_only=True):
@@ -693,6 +695,33 @@ def raw_variants(rng, adoc):
                 extra = '*'
             lines.append(list(cs) + [extra])
         out.append(('plus', _raw_text(lines)))
+    # (a2) a spine added by `*+` in a column that is NOT the last one: the new spine's cells stand right after that column and the columns to its
+    # right move on (round 6, C18_r6_2: importers kept per column index).  Only where no later line changes the number of columns.
+    cand = [i for i in cellrows[1:] if L[i][0] in ('data', 'bar', 'interp') and len(L[i][2]) >= 2 and
+            all(len(L[k][2]) == len(L[i][2]) for k in cellrows if k >= i)]
+    if cand:
+        r = rng.choice(cand)
+        h = rng.choice(LATE_HEADERS)
+        n = len(L[r][2])
+        j = rng.randrange(n - 1)
+        lines = [cs for (_, _, cs) in L[:r]]
+        lines.append(['*+' if c == j else '*' for c in range(n)])
+        lines.append(['*'] * (j + 1) + [h] + ['*'] * (n - 1 - j))
+        k = 0
+        for rk, row, cs in L[r:]:
+            if rk == 'global' or not cs:
+                lines.append(list(cs)); continue
+            if rk == 'data':
+                k += 1
+                extra = ('4c' if k % 2 else '8r') if h == '**kern' else rng.choice(['la', 'li', 'p', 'f', '.', 'C:'])
+            elif rk == 'bar':
+                extra = cs[0]
+            elif all(c == '*-' for c in cs):
+                extra = '*-'
+            else:
+                extra = '*'
+            lines.append(list(cs[:j + 1]) + [extra] + list(cs[j + 1:]))
+        out.append(('plus-mid', _raw_text(lines)))
     # (b) blank lines inside
     lines = [cs for (_, _, cs) in L]
     for _ in range(rng.randint(1, 3)):
